@@ -243,4 +243,40 @@ theorem tick_inv (L : List MigReq) (p : Pmc) (h : Inv L p) (hf : (tick p).1.faul
     intro q _ hq hfq; obtain ⟨a, b⟩ := phase_writeDone q hq.1 hfq; exact ⟨a, b.trans hq.2⟩) g12
   exact g13 hf
 
+/-- what the environment can do to a controller between ticks: fill and drain port buffers;
+    the control port's incoming buffer is only appended to -/
+inductive EnvMove (p : Pmc) : Pmc → Prop
+  | mk (remIn remOut : List RMsg) (more : List CMsg) (ctlOut : List Nat) (memIn : List MRsp) (memOut : List MReq) :
+      EnvMove p { p with remIn := remIn, remOut := remOut, ctlIn := p.ctlIn ++ more, ctlOut := ctlOut,
+                          memIn := memIn, memOut := memOut }
+
+/-- states a controller can reach without panicking, together with the list of all migration
+    requests ever delivered to its control port -/
+inductive Reach : Pmc → List MigReq → Prop
+  | init (self : Nat) : Reach { self := self } []
+  | tick {p L} : Reach p L → (tick p).1.fault = none → Reach (tick p).1 L
+  | env {p q L} : Reach p L → EnvMove p q → Reach q (L ++ migsOf (q.ctlIn.drop p.ctlIn.length))
+
+theorem migsOf_append (a b : List CMsg) : migsOf (a ++ b) = migsOf a ++ migsOf b := by
+  induction a with
+  | nil => rfl
+  | cons x xs ih => cases x <;> simp [migsOf, ih]
+
+theorem reach_inv {p : Pmc} {L : List MigReq} (h : Reach p L) : Inv L p := by
+  induction h with
+  | init self => exact ⟨Phase.idle rfl rfl rfl rfl rfl, rfl⟩
+  | tick _ hf ih => exact tick_inv _ _ ih hf
+  | env _ hm ih =>
+    cases hm with
+    | mk remIn remOut more ctlOut memIn memOut =>
+      obtain ⟨h1, h2⟩ := ih
+      refine ⟨?_, ?_⟩
+      · cases h1 with
+        | idle a b c d e => exact Phase.idle a b c d e
+        | moving S r a b c d e f g => exact Phase.moving S r a b c d e f g
+        | done S r a b c d e f g i => exact Phase.done S r a b c d e f g i
+      · simp only [reqs, key, List.drop_left] at *
+        rw [migsOf_append, ← List.append_assoc, h2]
+
+
 end C19
